@@ -3,7 +3,7 @@
 # sources must leave every check at exit 0 (exit 1 = false alarm, exit 2 = the analysis does not understand the new shape).
 # UNDECIDED_OK="C05 ..." lists checks for which exit 2 (never exit 1) is the documented answer for this patch.
 S=$(mktemp -d /tmp/w2c2-refactor.XXXXXX); trap 'rm -rf "$S"' EXIT
-SNAP="$S/verif"; mkdir -p "$SNAP"; cp -r /verif/sa /verif/check /verif/known_findings.json /verif/properties.jsonl "$SNAP/"; ln -s /verif/.cache "$SNAP/.cache"
+if [ -n "$SNAP_DIR" ]; then SNAP="$SNAP_DIR"; else SNAP="$S/verif"; mkdir -p "$SNAP"; cp -r /verif/sa /verif/check /verif/known_findings.json /verif/properties.jsonl "$SNAP/"; ln -s /verif/.cache "$SNAP/.cache"; fi
 mkdir -p "$S/repo"; (cd /repo && cp -r w2c2 wasi futex "$S/repo/")
 patch -s -p1 -d "$S/repo" < "$1" || { echo "patch does not apply"; exit 3; }
 bad=0
